@@ -112,8 +112,54 @@ def static_tie():
     return problems
 
 
+def _history_x(rng, n):
+    """History with many clock jumps (state clean-up of instances older than 5 s) and save/restore round trips in the
+    MIDDLE of the history (the base generator has ~3 % of either per item): old parked / waiting / done instances meet
+    `_clean_up_state`, and the restored state is driven further with non-main flows parked."""
+    h = []
+    for _ in range(n):
+        x = rng.random()
+        if x < 0.18:
+            h.append(["clock", rng.choice([1, 6, 6, 20])])
+        elif x < 0.30:
+            h.append(["reload"])
+        else:
+            h.extend(gen.history(rng, 1))
+    return h
+
+
+def _extra_cases(rng, tier):
+    """Shapes the base generator (harness/impl/corevm_gen.py) does not reach — added AFTER the base cases, with the same rng,
+    so the base distribution is unchanged:
+      * `main-ends`: the main flow is NOT kept alive by a trailing `match Never()`: it finishes, is restarted by
+        `_finish_flow` and stays a WAITING instance (head at position 0, registered under StartFlow) for the rest of the
+        history — the only long-lived WAITING instances there are; clock jumps follow, so the clean-up sees them;
+      * `clocky`: ordinary programs under histories dense in clock jumps and save/restore round trips."""
+    quick = tier == "quick"
+    hmax = 12 if quick else 40
+    out = []
+    for i in range(60 if quick else 600):
+        g = gen.G(rng, rng.choice([1, 2, 2, 3, 3, 4]), rng.choice([1, 2, 2, 3]))
+        prog = g.program()
+        main = prog["flows"][0]
+        if main["body"] and main["body"][-1] == ["match", ["ev", "Never", []]]:
+            main["body"] = main["body"][:-1]
+        n1 = rng.randrange(1, hmax // 2 + 1)
+        n2 = rng.randrange(1, hmax // 2 + 1)
+        hist = gen.history(rng, n1) + [["clock", rng.choice([6, 6, 20])]] + _history_x(rng, n2)
+        out.append({"kind": "gen", "prog": prog, "history": hist, "tie_seed": rng.randrange(1 << 30), "feats": sorted(g.feats | {"main-ends"})})
+    for i in range(60 if quick else 600):
+        g = gen.G(rng, rng.choice([2, 2, 3, 3, 4, 5]), rng.choice([1, 2, 2, 3]))
+        prog = g.program()
+        out.append({"kind": "gen", "prog": prog, "history": _history_x(rng, rng.randrange(3, hmax + 1)), "tie_seed": rng.randrange(1 << 30),
+                    "feats": sorted(g.feats | {"clocky"})})
+    return out
+
+
 def gen_cases(rng, tier):
-    return gen.gen_cases(rng, tier)
+    cases = gen.gen_cases(rng, tier)
+    cases.extend(_extra_cases(rng, tier))
+    return cases
 
 
 # ----------------------------------------------------------------------------------------- implementation
@@ -152,6 +198,10 @@ def snapshot(state):
                       "scope_flows": scopes_f, "scope_actions": scopes_a, "loop": fs.loop_id})
     return {
         "queue": len(state.internal_events),
+        # the interpreter removes an entry with `list.remove((flow_uid, head_uid))`: an entry that is not Python-equal to that
+        # tuple (e.g. a 2-element list after a save/restore round trip) can never be removed again
+        "entry_shape": [f"{nm}:{k!r}" for nm, ks in state.event_matching_heads.items() for k in ks
+                        if not (type(k) is tuple and len(k) == 2 and all(isinstance(x, str) for x in k))][:3],
         "index": [[nm, [list(k) for k in ks]] for nm, ks in state.event_matching_heads.items()],
         "rev": [[k, nm] for k, nm in state.event_matching_heads_reverse_map.items()],
         "insts": insts,
@@ -261,6 +311,7 @@ def run_impl(case):
     sm = cv.sm
     cv.REC.reset()
     cv.REC.rng = random.Random(case.get("tie_seed", 0))
+    cv.REC.loops_on = True
     obs = {"steps": [], "notes": []}
     pkey = json.dumps(case.get("prog") or case.get("src"), sort_keys=True)
     hist = list(case["history"])
@@ -351,6 +402,7 @@ def run_impl(case):
             else:
                 raise ValueError(kind)
             step["event"] = ev if isinstance(ev, dict) else {"type": ev.name, **ev.arguments}
+            cv.take_loops()
             try:
                 with cv.quiet():
                     sm.run_to_completion(state, ev)
@@ -359,6 +411,7 @@ def run_impl(case):
             except Exception as e:  # noqa  -- an exception escaping run_to_completion is C10's subject; the state is still observed
                 step["exc"] = type(e).__name__ + ":" + str(e)[:100]
             prims = cv.take_prims()
+            step["loops"] = cv.take_loops()
             step["ops"], step["op_problems"] = cv.group_ops(prims)
             step["choices"] = cv.take_choices()
             step["snap"] = snapshot(state)
@@ -397,6 +450,11 @@ def run_impl(case):
     obs["latent"] = _latent_regions(obs)
     keep_full = bool(obs["findings"]) or case.get("keep_snapshots")
     for st in obs["steps"]:
+        if not keep_full:
+            # the worklists at the loop boundaries stay in the observation (key "loops": [{"at", "queue", <worklists>}]) for the
+            # comparison with the model's pending lists; the per-boundary list of all live heads was only needed by the oracle
+            for b_ in st.get("loops", []):
+                b_.pop("live", None)
         if "snap" in st and not keep_full:
             sn = st["snap"]
             st["snap"] = {"index": sn["index"], "rev": sn["rev"],
@@ -624,6 +682,8 @@ def check_snapshot(snap):
         else:
             sig = "index-missed" if missed and not stale else ("index-stale" if stale and not missed else "index-differs")
             bad.append((sig, f"index != scan: missed {missed[:3]} stale {stale[:3]}"))
+    if snap.get("entry_shape"):
+        bad.append(("index-entry-shape", f"index entry is not the (flow uid, head uid) tuple the interpreter adds and removes: {snap['entry_shape'][0]}"))
     rev = sorted([k, nm] for k, nm in snap["rev"])
     inv = sorted([k[0] + k[1], nm] for nm, k in entries)
     if rev != inv:
@@ -675,6 +735,37 @@ def check_snapshot(snap):
     return bad
 
 
+# Which worklists make up "the pending list" at each boundary of the loops of `run_to_completion` (recorded by
+# harness/impl/corevm.py): the local `actionable_heads` of run_to_completion plus the list handed to / returned by
+# `_advance_head_front`; at `resolve` (once per iteration of `while heads_are_advancing`) the argument list itself.
+PENDING_AT = {
+    "resolve": ("pending",),
+    "match-in": ("actionable", "heads"), "match-out": ("actionable", "out"),
+    "merge-in": ("actionable", "heads"), "merge-out": ("actionable", "out"),
+    "advance-in": ("heads",), "advance-out": ("out",),
+}
+
+
+def check_loops(loops):
+    """Worklist invariant `PendingCovers` at every loop boundary of run_to_completion: every non-INACTIVE head of every
+    listening (WAITING / STARTING / STARTED) instance that is NOT on a `match` element and NOT on a wait-for-heads element is
+    in the pending list (or in the list of heads being advanced) — a head that is neither parked nor pending can never be
+    advanced again within this event.  At `resolve` additionally: no internal event is queued."""
+    bad = []
+    for k, b in enumerate(loops):
+        keys = PENDING_AT.get(b["at"])
+        if keys is None or "live" not in b or any(b.get(x) is None for x in keys):
+            continue
+        pend = {(e[0], e[1]) for x in keys for e in b[x]}
+        for f, fst, h, pos, hst, kind in b["live"]:
+            if fst in LISTENING and kind not in ("match", "wait") and (f, h) not in pend:
+                bad.append(("pending-covers", f"loop boundary #{k} ({b['at']}): head {h} of {f} ({hst}, on a {kind} element at {pos}) is neither parked nor in the pending list {sorted(pend)[:6]}"))
+                break
+        if b["at"] == "resolve" and b["queue"] != 0:
+            bad.append(("pending-queue", f"loop boundary #{k} (resolve): {b['queue']} internal events queued when the actionable heads are resolved"))
+    return bad
+
+
 def _findings(case, obs):
     if "findings" in obs:
         return [tuple(f) for f in obs["findings"]]
@@ -694,6 +785,8 @@ def _compute_findings(obs):
             continue
         for sig, msg in check_snapshot(st["snap"]):
             out.append((sig, f"after step {n} ({st['item']}): {msg}"))
+        for sig, msg in check_loops(st.get("loops", [])):
+            out.append((sig, f"during step {n} ({st['item']}): {msg}"))
     return out
 
 
@@ -781,6 +874,13 @@ def tags(case, obs):
             t.append("op-problem")
         if st.get("choices"):
             t.append("tie-break")
+    nb = sum(len(st.get("loops", [])) for st in obs["steps"])
+    t.append("loop-boundaries:" + str(min(2000, nb // 50 * 50)))
+    for st in obs["steps"]:
+        for b_ in st.get("loops", []):
+            if b_["at"].startswith("unknown") or (b_["at"] in PENDING_AT and any(b_.get(x) is None for x in PENDING_AT[b_["at"]])):
+                t.append("loop-boundary-unclassified")
+                break
     t.extend("op:" + k for k in sorted(opk))
     t.append("nops:" + str(min(2000, nops // 50 * 50)))
     for f in gen.features(case):
@@ -798,4 +898,9 @@ def shrink(case):
 
 
 def escalate(rng, case, tier):
-    return gen.escalate(rng, case, tier)
+    out = gen.escalate(rng, case, tier)
+    if case is not None and case.get("kind") != "lib":
+        for _ in range(100):
+            out.append(dict(case, history=_history_x(rng, rng.randrange(2, 30)), tie_seed=rng.randrange(1 << 30)))
+    out.extend(_extra_cases(rng, "quick"))
+    return out
